@@ -156,7 +156,25 @@ class Scratch:
 # --------------------------------------------------------------------------------------
 
 
-def observe(g):
+ACCESS = ["n_face", "n_node", "face_node_connectivity", "node_lon", "node_lat", "node_x", "face_lon", "bbox_nodes", "n_max_face_nodes"]
+
+
+def first_access(g, order):
+    """read the decoded grid's attributes for the first time in the order drawn for this case: every lazily
+    derived quantity the property speaks about must be the same whatever was read first"""
+    for name in order:
+        try:
+            if name == "bbox_nodes":
+                # reads node_lat before node_lon by itself
+                g.subset.bounding_box((-180, 180), (-90, 90), element="nodes")
+            else:
+                getattr(g, name)
+        except Exception:
+            pass  # what a getter raises is judged where the property speaks about it (observe / carried checks)
+
+
+def observe(g, order=()):
+    first_access(g, order)
     fnc = g.face_node_connectivity
     vals = np.asarray(fnc.values)
     dt = str(vals.dtype)
@@ -319,7 +337,7 @@ def judge_once(ctx, case, exp, open_fn, model_table=None, expect_n_node=None, ce
         cls_sig = fmt + "/" + phase  # consequences of one cause: not split by dialect
     try:
         g = open_fn()
-        o = observe(g)
+        o = observe(g, () if phase == "first-grid-after-reopening" else case.get("access", ()))
     except Exception as e:
         ctx.fail(f"C01/{cls_sig}/raises/{type(e).__name__}",
                  f"{fmt} reader raises {type(e).__name__} on a well-formed source: {str(e)[:160]}", case)
@@ -521,7 +539,13 @@ def case_ugrid(ctx, case, sc):
         elems = ugrid_optional_elements(faces, n)
         for k, (name, t) in enumerate(sorted(dl["tables"].items(), key=lambda kv: kv[1].get("order", 0))):
             rows, n_elem = elems[name]
+            if name in ("edge_node_connectivity", "edge_face_connectivity"):
+                t["extra_w"] = 0  # UGRID: these tables have exactly two columns
             tarr, tat, tstatus, tinfo = ugrid_table(d, rows, n_elem, t)
+            if tstatus == "ambiguous" and name == "edge_node_connectivity":
+                # the rebased table no longer lists the faces' edges: the grid legitimately rebuilds it when edges are
+                # derived (e.g. by a subset); that first read is not part of this (no-verdict) comparison
+                case["access"] = [x for x in case.get("access", []) if x != "bbox_nodes"]
             if tstatus == "encode-mismatch":
                 ctx.mismatch("C01/ugrid/encode/" + name, case, *tinfo)
                 return
@@ -1025,20 +1049,37 @@ def case_vertices(ctx, case, sc):
     d, dl = ctx.driver, case["dialect"]
     faces = case["faces"]
     w = max(map(len, faces))
-    lon, lat = src_lon(case), np.asarray(case["lat"], float)
-    arr = np.full((len(faces), w, 2), float(INT_FILL))
-    for i, f in enumerate(faces):
-        arr[i, : len(f), 0] = lon[f]
-        arr[i, : len(f), 1] = lat[f]
-    keys = " ".join([str(len(faces))] + [" ".join([str(w)] + [f"{key_of_float(a) if a != float(INT_FILL) else INT_FILL} {key_of_float(b) if b != float(INT_FILL) else INT_FILL}"
-                                                               for a, b in r]) for r in arr.tolist()])
+    F = float(INT_FILL)
+    if dl.get("coords") == "xyz":
+        # Cartesian-only source: node_lon / node_lat are derived lazily by the grid
+        xyz = xyz_of(case["lon"], case["lat"])
+        arr = np.full((len(faces), w, 3), F)
+        for i, f in enumerate(faces):
+            arr[i, : len(f), :] = xyz[f]
+        # lexicographic order on (x, y, z) = order on the pair (key x, key y * 2^65 + key z)
+        kk = lambda r: (f"{INT_FILL} {INT_FILL}" if r[0] == F else f"{key_of_float(r[0])} {key_of_float(r[1]) * (1 << 65) + key_of_float(r[2])}")
+        npos = len({tuple(key_of_float(c) for c in p) for p in xyz.tolist()})
+        latlon = False
+        if (np.asarray(case["lon"]) < 0).any():
+            ctx.hit("vertices-xyz:western-hemisphere-nodes")
+        if (np.abs(np.asarray(case["lon"])) > 170).any():
+            ctx.hit("vertices-xyz:nodes-near-the-antimeridian")
+    else:
+        lon, lat = src_lon(case), np.asarray(case["lat"], float)
+        arr = np.full((len(faces), w, 2), F)
+        for i, f in enumerate(faces):
+            arr[i, : len(f), 0] = lon[f]
+            arr[i, : len(f), 1] = lat[f]
+        kk = lambda r: f"{key_of_float(r[0]) if r[0] != F else INT_FILL} {key_of_float(r[1]) if r[1] != F else INT_FILL}"
+        npos = len({(key_of_float(a), key_of_float(b)) for a, b in zip(lon.tolist(), lat.tolist())})
+        latlon = True
+    keys = " ".join([str(len(faces))] + [" ".join([str(w)] + [kk(r) for r in row]) for row in arr.tolist()])
     tk = common.Tok(d.ask("C01.verts", keys))
     tk.pairs()
     mt = tk.rows()
     src = arr if dl.get("api") == "array" else arr.tolist()
     exp = dict(faces=faces, lon=case["lon"], lat=case["lat"])
-    npos = len({(key_of_float(a), key_of_float(b)) for a, b in zip(lon.tolist(), lat.tolist())})
-    judge(ctx, case, exp, lambda: ux.open_grid(src, latlon=True), mt, expect_n_node=npos, source=src)
+    judge(ctx, case, exp, lambda: ux.open_grid(src, latlon=latlon), mt, expect_n_node=npos, source=src)
 
 
 def case_geos(ctx, case, sc):
@@ -1173,7 +1214,19 @@ BUILDERS = dict(ugrid=case_ugrid, topology=case_topology, mpas=case_mpas, mpas_c
                 scrip=case_scrip, vertices=case_vertices, geos=case_geos, icon=case_icon, geojson=case_geojson)
 
 
+def draw_access(ctx, case):
+    """the order of first reads is a random dimension of every case (stored in the case: replay is exact)"""
+    if "access" not in case:
+        k = ctx.rng.choice([0, 2, 3, len(ACCESS)])
+        order = ctx.rng.sample(ACCESS, k)
+        if ctx.rng.random() < 0.35:
+            order = [ctx.rng.choice(["node_lat", "bbox_nodes", "node_x", "face_lon"])] + [x for x in order if x != "bbox_nodes"]
+        case["access"] = order
+    ctx.hit("first-read=" + (case["access"][0] if case["access"] else "default(face_node_connectivity)"))
+
+
 def run_case(ctx, case, sc):
+    draw_access(ctx, case)
     try:
         BUILDERS[case["fmt"]](ctx, case, sc)
     except (RuntimeError, AssertionError):
@@ -1442,7 +1495,8 @@ def gen_scrip(rng, m):
 
 
 def gen_vertices(rng, m):
-    return base_case("vertices", m, pad="uniform" if uniform(m) else "fill", api=rng.choice(["array", "list"]), lon360=rng.random() < 0.3)
+    return base_case("vertices", m, pad="uniform" if uniform(m) else "fill", api=rng.choice(["array", "list"]), lon360=rng.random() < 0.3,
+                     coords=rng.choice(["lonlat", "xyz"]))
 
 
 def gen_geos(rng):
@@ -1719,6 +1773,9 @@ def run_file(ctx, kind, rel, opt):
         dl["blocks"] = 2 if "mixed" in rel else 1
         dl["coords"] = "coord"
     case = dict(fmt={"geo": "geofile"}.get(kind, kind), path=rel, dialect=dl, sample_file=True)
+    if opt.get("access") is not None:
+        case["access"] = opt["access"]
+    draw_access(ctx, case)
 
     def open_fn():
         with contextlib.redirect_stdout(io.StringIO()):
@@ -1763,7 +1820,7 @@ def dispatch(ctx, case, sc):
     if case.get("sample_file"):
         for kind, rel, opt in FILES:
             if rel == case["path"] and (kind != "mpas" or opt.get("dual") == case["dialect"].get("dual")):
-                run_file(ctx, kind, rel, opt)
+                run_file(ctx, kind, rel, dict(opt, access=case.get("access")))
         return
     if case["fmt"] == "lonrange":
         lon_case(ctx, case["lons"])
